@@ -851,6 +851,20 @@ func (e *Env) evalCall(n *ECall) Val {
 			return boolVal(pc)
 		}
 		return boolVal("false")
+	case "deferred":
+		// deferred(NAME): this execution registered a deferred call of the function/closure NAME
+		// (NAME as in the last component of its key, e.g. clientHandshake$2)
+		if len(n.Args) != 1 {
+			sfail("deferred(NAME)")
+		}
+		id, ok := n.Args[0].(*EIdent)
+		if !ok {
+			sfail("deferred(NAME)")
+		}
+		if t, ok := vc.deferCF[id.Name]; ok {
+			return boolVal(t)
+		}
+		return boolVal("false")
 	case "atloop":
 		// atloop(N, e): e evaluated in the state in which loop N was entered (before its first iteration)
 		if len(n.Args) != 2 {
